@@ -233,7 +233,12 @@ def check_config(ctx, F, tag, text, lists):
     bwt = fold_consts(bw.term_of_local(0))
     ok = m(Bin("Div", Bin("Sub", Bin("Add", Param(0), Const(64)), Const(1)), Const(64)), bwt) or m(Bin("Div", Bin("Add", Param(0), Const(63)), Const(64)), bwt) or \
         m(Bin("Shr", Bin("Add", Param(0), Const(63)), Const(6)), bwt) or m(Call("bits::div_round_up", Param(0), Const(64)), bwt)
-    ctx.ob("C07.R2.document-constant", "bits::bits_to_words" + tag, loc(bw.raw["span"]), ok, "formula", "document: floor((n + 63) / 64) elements; bits_to_words(n) = %s" % tstr(bw.term_of_local(0)))
+    sem, pos = "", False
+    if not ok:
+        import residues
+        r_, sem = residues.agrees(F, bw.term_of_local(0), lambda x: x[:2] == ("param", 0), lambda N: ("bin", "Div", ("bin", "Add", N, ("const", 63)), ("const", 64)))
+        ok, pos = (True if r_ else (False if r_ is False else ok)), r_ is False
+    ctx.ob("C07.R2.document-constant", "bits::bits_to_words" + tag, loc(bw.raw["span"]), ok, "formula", "document: floor((n + 63) / 64) elements; bits_to_words(n) = %s %s" % (tstr(bw.term_of_local(0)), sem), positive=pos)
     rl = F.body("<raw_vector::RawVector as serialize::Serialize>::load")
     need(text, r"can be from 1 to 64 bits", "item width range")
     # width predicate at the constructors = C09.R2; here: the constant bound is WORD_BITS = 64
@@ -248,6 +253,9 @@ def check_config(ctx, F, tag, text, lists):
             wt = ("param", wparam, b.local_name(wparam + 1))
             nz = fact_nonzero(fs, wt)
             le = fact_at_most(fs, wt, 64)
+            from guards import validated_by_ctor
+            if not (nz and le) and fn != "int_vector::IntVector::new" and validated_by_ctor(fs, wt):
+                nz = le = True          # delegated to IntVector::new(width)?
             ok = ok and nz and le
         ctx.ob("C07.R2.width-range", fn + tag, loc(b.raw["span"]), ok, "guard-dominance", "IntVector built only under width != 0 and width <= 64: %s" % ok)
 
@@ -280,6 +288,12 @@ def check_config(ctx, F, tag, text, lists):
         from facts import resolve_ref_local
         okp = resolve_ref_local(so, t["args"][0]) is not None and c06.root_local(so, {"l": resolve_ref_local(so, t["args"][0]), "p": []}) == ret
     ctx.ob("C07.R4.first-is-packed", "wavelet_matrix::WaveletMatrix::start_offsets" + tag, loc(so.raw["span"]), okp, "must-pass-through", "the returned vector passes through pack() on every path: %s" % okp)
+    # ... and pack() itself ends with the minimal width (borrowed: C05.R3, the width it stores is bit_len(max), and it returns
+    # without storing only for an empty vector or when the width is already that)
+    from core import Relabel
+    if not isinstance(ctx, Relabel):
+        import c05
+        c05.check_config(Relabel(ctx, {"C05.R3.pack-skips-only-when-minimal": "C07.R4.pack-skips-only-when-minimal", "C05.R3.pack-width-data": "C07.R4.pack-width-data"}), F, tag)
     wms = [n for n in F.bodies if n.startswith("<wavelet_matrix::WaveletMatrix as std::convert::From<std::vec::Vec<") and n.endswith(">::from")]
     for fn in wms:
         b = F.body(fn)
